@@ -156,7 +156,7 @@ struct Emitter {
     Expr::EvalResult R;
     if (E->EvaluateAsInt(R, Ctx, Expr::SE_NoSideEffects)) {
       llvm::APSInt V = R.Val.getInt();
-      if (V.isSigned() || V.getActiveBits() <= 63)
+      if (V.isSigned() ? V.getMinSignedBits() <= 64 : V.getActiveBits() <= 63)
         J.attribute("cv", V.isSigned() ? V.getSExtValue() : (int64_t)V.getZExtValue());
       else
         J.attribute("cvs", llvm::toString(V, 10));
